@@ -102,7 +102,7 @@ def run_shard(spec, rec):
                 # null conditional means outside (0,u): the total already exceeds N t (mu < 0), or cannot reach it (mu > u);
                 # the conversions are algebraic identities there as well
                 mu[rng.randrange(k)] = rng.choice((-0.25, -0.0625, -1.5, u + 0.125, u + 1.0))
-            lam = [nn.dyadic(rng, 0, 4, 6) for _ in range(k)]
+            lam = [nn.dyadic(rng, 0, 4, 6) if rng.random() < 0.8 else rng.choice((2.0 ** -17, 2.0 ** -20, 2.0 ** -30, 2.0 ** -45)) for _ in range(k)]   # also very small bets
             run_case({"kind": "inverse", "u": u, "mu": mu, "lam": lam}, rec)
 
 
